@@ -537,9 +537,34 @@ class Prov:
                 out.append(("wmean", None, v))
             elif isinstance(v, ast.Constant) and v.value is None:
                 continue
+            elif self.memory_root(v) is not None:
+                out.append(("memory", self.memory_root(v), v))
             else:
                 out.append(("other", None, v))
         return out
+
+    def memory_root(self, e, depth=0):
+        """`self.<attr>` when the value is looked up in a container the
+        writer instance keeps (`self._x[k]`, `self._x.get(k)`, through a
+        local alias): writer-side memory, not what the file holds"""
+        while depth < 8:
+            depth += 1
+            if isinstance(e, ast.Subscript):
+                e = e.value
+            elif isinstance(e, ast.Call) and isinstance(
+                    e.func, ast.Attribute) and e.func.attr in (
+                    "get", "pop", "setdefault", "__getitem__"):
+                e = e.func.value
+            elif isinstance(e, ast.Name) and e.id in self.defs and len(
+                    self.defs[e.id]) == 1 and e.id not in (
+                    self.D, self.data, self.O):
+                e = self.defs[e.id][0].value
+            else:
+                break
+        if isinstance(e, ast.Attribute) and isinstance(e.value, ast.Name) \
+                and e.value.id == "self" and e.attr != "h5file":
+            return e.attr
+        return None
 
     # -- counts -----------------------------------------------------------
     def part_of(self, e):
@@ -741,15 +766,36 @@ def r201(ctx, repo):
                        label=lab + " after block store")
             elif kind == "combine":
                 outer, ops = info
+                # the previous summary is what the FILE holds for this
+                # dataset: a value remembered by the writer instance (by
+                # dataset name) outlives a dataset that is deleted and
+                # re-created (replace mode) and misses what another writer
+                # stored in between
+                mem = [f for o in ops for f in o if f[0] == "memory"]
+                ctx.ob("R20.1", not mem, f"the previous {uname} entering the "
+                       f"combination is the attribute stored in the file"
+                       if not mem else
+                       f"the previous {uname} is taken from "
+                       f"`{short(mem[0][2], 50)}` (self.{mem[0][1]}, memory "
+                       f"of the writer instance), not from the attribute the "
+                       f"file holds: the remembered value survives the "
+                       f"deletion / replacement of the dataset and ignores "
+                       f"what another writer stored – the new {uname} covers "
+                       f"data that are not in the file",
+                       node=mem[0][2] if mem else node,
+                       label=f"{uname}: previous value read from the file")
+                ops = [[f for f in o if f[0] != "memory"] for o in ops]
                 kinds = [sorted({f[0] for f in o}) for o in ops]
                 flat = sorted(x for ks in kinds for x in ks)
-                if flat != ["block", "stored"]:
+                if flat != ["block", "stored"] and not (
+                        mem and flat == ["block"]):
                     raise AnalysisError(
                         f"write_ndarray: {uname} combines {kinds} – shape "
                         f"not recognised")
                 inner = [f[1] for o in ops for f in o if f[0] == "block"][0]
                 table.setdefault(uname, set()).add(inner)
-                _stored_operand(ctx, pv, cfg, uname, node, ops, lab)
+                if "stored" in flat:
+                    _stored_operand(ctx, pv, cfg, uname, node, ops, lab)
                 if uname == "mean":
                     ctx.ob("R20.1", False, "partial means cannot be combined "
                            "by a reducer without their counts", node=node,
@@ -798,6 +844,11 @@ def r201(ctx, repo):
             elif kind == "stored":
                 ctx.ob("R20.1", False, f"the stored {uname} is kept although "
                        f"a new block was appended", node=node, label=lab)
+            elif kind == "memory":
+                ctx.ob("R20.1", False, f"{uname} is taken from "
+                       f"`{short(node, 50)}` (memory of the writer instance)"
+                       f", not computed from the data in the file",
+                       node=node, label=lab)
             else:
                 raise AnalysisError(
                     f"write_ndarray: value `{short(node, 50)}` stored as "
@@ -2243,7 +2294,9 @@ def run(ctx):
     repo = ctx.repo
     ctx.rule("R20.1", "stored min/max/mean are NaN-ignoring reductions of "
              "the whole dataset or consistent combinations of partial "
-             "results (weights = non-NaN counts)", minimum=10)
+             "results (weights = non-NaN counts); the previous "
+             "extremum is the attribute in the file, never writer-side "
+             "memory", minimum=12)
     ctx.rule("R20.2", "writer, copier, H5ScalarEvent, ChildScalar use the "
              "same name -> NaN-ignoring reducer pairs", minimum=18)
     ctx.rule("R20.3", "lookup: cache by name, fallback from own data, seeds, "
@@ -2575,6 +2628,42 @@ def _summary_cache_object(src, getter="self._values.get(uname, None)"):
     return src
 
 
+_INIT_SIZES = "        self._group_sizes = {}\n"
+
+
+def _extrema_cached_by_name(src):
+    """running min/max remembered per dataset name by the writer instance,
+    consulted before the stored attribute"""
+    src = src.replace(_INIT_SIZES, _INIT_SIZES
+                      + "        self._ufunc_cache = {}\n", 1)
+    src = src.replace(
+        "                val_a = dset.attrs.get(uname, None)\n",
+        "                ckey = (dset.name, uname)\n"
+        "                val_a = self._ufunc_cache.get(ckey)\n"
+        "                if val_a is None:\n"
+        "                    val_a = dset.attrs.get(uname, None)\n", 1)
+    return src.replace(
+        "                dset.attrs[uname] = val\n",
+        "                dset.attrs[uname] = val\n"
+        "                self._ufunc_cache[ckey] = val\n", 1)
+
+
+def _extrema_cache_with_attr_default(src):
+    """the remembered value wins, the attribute is only its default; the
+    memory is reached through a local alias"""
+    src = src.replace(_INIT_SIZES, _INIT_SIZES
+                      + "        self._extrema = {}\n", 1)
+    src = src.replace(
+        "                val_a = dset.attrs.get(uname, None)\n",
+        "                seen = self._extrema\n"
+        "                val_a = seen.get((dset.name, uname),\n"
+        "                                 dset.attrs.get(uname, None))\n", 1)
+    return src.replace(
+        "                dset.attrs[uname] = val\n",
+        "                dset.attrs[uname] = val\n"
+        "                seen[(dset.name, uname)] = val\n", 1)
+
+
 MUTANTS = [
     # R20.1
     ("writer: max of a block with np.max", WR,
@@ -2706,6 +2795,11 @@ MUTANTS = [
     ("ChildScalar.max taken from the parent feature", HE,
      ('return self._fetch_ufunc_attr("max", np.nanmax)',
       "return self.child.hparent[self.feat].max()"), "R20.4"),
+    # round 7: writer-side memory in place of the stored attribute
+    ("running extrema cached per dataset name on the writer", WR,
+     _extrema_cached_by_name, "R20.1"),
+    ("remembered extrema win over the stored attribute (aliased dict)", WR,
+     _extrema_cache_with_attr_default, "R20.1"),
 ]
 
 #: for the tree with fix_F20b.diff applied and ARM_F20B = True
@@ -2837,6 +2931,10 @@ TWINS = [
      _summaries_in_mixin),
     ("summary cache wrapped in a private cache object", EV,
      _summary_cache_object),
+    # round 7
+    ("stored extremum read by subscript behind a membership test", WR,
+     ("val_a = dset.attrs.get(uname, None)",
+      "val_a = dset.attrs[uname] if uname in dset.attrs else None")),
 ]
 
 # mutants that re-introduce the repaired defects (apply to the fixed tree)
